@@ -12,6 +12,7 @@ import (
 	"math/rand"
 	"net"
 	"os"
+	"sync/atomic"
 	"time"
 
 	"github.com/anacrolix/dht/v2"
@@ -37,19 +38,20 @@ type sender struct {
 }
 
 type hist struct {
-	rng    *rand.Rand
-	seg    int
-	tr     *sim.Trace
-	srv    *dht.Server
-	conn   *sim.Conn
-	root   krpc.ID
-	nosec  bool
-	peers  []peer
-	block  sim.BlockSet
-	tcount int
-	lastT  map[string][]byte // last matched reply datagram per address, for replays
-	keep   []sim.Out
-	dense  bool
+	rng      *rand.Rand
+	seg      int
+	tr       *sim.Trace
+	srv      *dht.Server
+	conn     *sim.Conn
+	root     krpc.ID
+	nosec    bool
+	peers    []peer
+	block    sim.BlockSet
+	tcount   int
+	lastT    map[string][]byte // last matched reply datagram per address, for replays
+	keep     []sim.Out
+	dense    bool
+	resendNs int64 // when non-zero: resend delay of own queries (default one hour)
 }
 
 func fam(ip net.IP) int {
@@ -384,6 +386,14 @@ func (h *hist) evResponse(questionable bool) {
 	}
 	t, _ := q.Str("t")
 	kind := rng.Intn(12)
+	if !questionable && !h.dense {
+		switch rng.Intn(12) {
+		case 0:
+			kind = 200 // the destination gets blocklisted between the query and its genuine answer
+		case 1:
+			kind = 201 // the query times out; its genuine answer arrives late
+		}
+	}
 	if h.dense && kind > 4 && rng.Intn(4) != 0 {
 		kind = rng.Intn(3)
 	}
@@ -403,6 +413,38 @@ func (h *hist) evResponse(questionable bool) {
 		as.noId = false
 	}
 	switch kind {
+	case 200:
+		h.block.Add(p.addr.IP)
+		h.srv.SetIPBlockList(h.block.Clone())
+		h.emit("SetBlock", noSender, false, false, false, nil)
+		h.inject(sim.Encode(resp(as.id, as.noId, t)), p.addr)
+		h.emit("RecvResp", h.senderOf(as), false, true, true, nil) // right address, right ID, but dropped: blocked
+		finish()
+		return
+	case 201:
+		// (the query above was started with the one-hour delay; let it go and start one that times out)
+		finish()
+		atomic.StoreInt64(&h.resendNs, int64(2*time.Millisecond))
+		h.keep = nil
+		h.conn.Take()
+		res := make(chan dht.QueryResult, 1)
+		go func() {
+			res <- h.srv.Query(context.Background(), dht.NewAddr(p.addr), "ping", dht.QueryInput{NumTries: 1 + rng.Intn(2)})
+		}()
+		r := <-res
+		atomic.StoreInt64(&h.resendNs, 0)
+		outs := h.conn.Take()
+		if r.Err == nil || len(outs) == 0 {
+			return
+		}
+		d, err := sim.DecodeDict(outs[0].B)
+		if err != nil {
+			return
+		}
+		t2, _ := d.Str("t")
+		h.inject(sim.Encode(resp(as.id, as.noId, t2)), p.addr)
+		h.emit("RecvResp", h.senderOf(as), false, false, h.dropped(p.addr), nil) // too late: the transaction is gone
+		return
 	case 0, 1, 2, 3, 4: // the genuine reply
 		m := resp(as.id, as.noId, t)
 		ro := kind == 4 && rng.Intn(2) == 0
@@ -530,17 +572,29 @@ func (h *hist) run(events int) {
 	h.nosec = rng.Intn(10) < 6
 	h.block = sim.BlockSet{}
 	h.lastT = map[string][]byte{}
-	h.genPeers()
-	if rng.Intn(3) == 0 {
-		h.block.Add(h.peers[rng.Intn(len(h.peers))].addr.IP)
+	autoId := rng.Intn(5) == 0 // let the server generate its own ID: the table must be rooted at that ID
+	if !autoId {
+		h.genPeers()
+		if rng.Intn(3) == 0 {
+			h.block.Add(h.peers[rng.Intn(len(h.peers))].addr.IP)
+		}
 	}
 	h.conn = sim.NewConn("45.9.9.9:4000")
 	cfg := dht.NewDefaultServerConfig()
-	cfg.NodeId = h.root
+	if !autoId {
+		cfg.NodeId = h.root
+	} else if rng.Intn(2) == 0 {
+		cfg.PublicIP = net.IPv4(45, 9, 9, 9).To4()
+	}
 	cfg.Conn = h.conn
 	cfg.NoSecurity = h.nosec
 	cfg.StartingNodes = func() ([]dht.Addr, error) { return nil, nil }
-	cfg.QueryResendDelay = func() time.Duration { return time.Hour }
+	cfg.QueryResendDelay = func() time.Duration {
+		if d := atomic.LoadInt64(&h.resendNs); d != 0 {
+			return time.Duration(d)
+		}
+		return time.Hour
+	}
 	cfg.SendLimiter = rate.NewLimiter(rate.Inf, 1)
 	cfg.Logger = log.Default.FilterLevel(log.Critical)
 	cfg.IPBlocklist = h.block.Clone()
@@ -550,6 +604,10 @@ func (h *hist) run(events int) {
 	}
 	h.srv = srv
 	defer srv.Close()
+	if autoId {
+		h.root = srv.ID()
+		h.genPeers()
+	}
 	h.tr.Emit(sim.M{"seg": h.seg, "e": "Start", "root": sim.Hex(h.root[:]), "nosec": h.nosec})
 	var snap []dht.VerifNode
 	h.dense = rng.Intn(4) == 0
